@@ -832,6 +832,22 @@ pub fn gen_fdwarf(ch: &mut Choices, o: &GenOpts) -> FDwarf {
             }
             let _ = o.bad_refs;
             dies[i].attrs = attrs;
+            // a twin: same tag and the same attribute names and forms as an earlier entry, other constants (entries that
+            // can share one abbreviation except for their DW_FORM_implicit_const values)
+            if i >= 2 && ch.chance(36) {
+                let j = 1 + ch.below(i - 1);
+                let mut twin = dies[j].attrs.clone();
+                for (_, v) in twin.iter_mut() {
+                    match v {
+                        FVal::ImplicitConst(x) => *x = ch.range(-70, 70),
+                        FVal::FileIndex(_, idx) if nfiles > 0 => *idx = if version >= 5 { ch.below(nfiles) as u64 } else { ch.below(nfiles + 1) as u64 },
+                        FVal::Const(_, x) => *x = (*x ^ (1 + ch.below(3) as u64)) & 0x7f,
+                        _ => {}
+                    }
+                }
+                dies[i].tag = dies[j].tag;
+                dies[i].attrs = twin;
+            }
         }
         units.push(FUnit { version, format64, address_size, partial: ch.chance(40), low_pc, dies, ranges, locs, line, name: format!("unit{}.c", ui).into_bytes(), comp_dir: b"/build".to_vec() });
     }
